@@ -77,6 +77,11 @@ pub fn segseg_case(cx: &mut Ctx, n: u64, case: &Value) {
                 }
                 _ => Err("wrong classification".to_string()),
             };
+            // LineIntersection::is_proper(): the flag of a single point, false for a collinear overlap
+            if let Ok(Some(li)) = &got {
+                let want_p = kind == "point" && rel["proper"].as_bool().unwrap_or(false);
+                if li.is_proper() == want_p { cx.ok("is_proper_method"); } else { cx.bad("C11", "is_proper_method", case, json!({"what": format!("{what} map {}", m.name), "got": li.is_proper(), "want": want_p})); }
+            }
             match ok {
                 Ok(()) => cx.ok(sub),
                 Err(e) => cx.bad("C11", sub, case, json!({"what": format!("{what} map {}", m.name), "got": format!("{got:?}"), "detail": e})),
